@@ -318,6 +318,11 @@ impl<L> ClientBuilder<L> {
 		let (client_dropped_tx, client_dropped_rx) = oneshot::channel();
 		let (send_receive_task_sync_tx, send_receive_task_sync_rx) = mpsc::channel(1);
 		let manager = ThreadSafeRequestManager::new();
+		#[cfg(jsonrpsee_verif)]
+		crate::verif::register_client_tables({
+			let m = Arc::downgrade(&manager.0);
+			Box::new(move || m.upgrade().map(|m| m.lock().expect(NOT_POISONED).table_sizes()))
+		});
 
 		let (ping_interval, inactivity_stream, inactivity_check) = match self.ping_config {
 			None => (IntervalStream::pending(), IntervalStream::pending(), InactivityCheck::Disabled),
